@@ -29,8 +29,8 @@ Proof. simpl. rewrite Z.eqb_refl. reflexivity. Qed.
 Lemma scan_open_fetch_close f v p o : scan o [EOpen f; EFetch f v p; EClose f] = Some o.
 Proof. simpl. rewrite Z.eqb_refl. simpl. reflexivity. Qed.
 
-Lemma fa_get_scan C dk f v sh ps o :
-  c_close_on_error C = true -> scan o (snd (fa_get C dk f v sh ps)) = Some o.
+Lemma fa_get_scan C dk f v sh fl ps o :
+  c_close_on_error C = true -> scan o (snd (fa_get C dk f v sh fl ps)) = Some o.
 Proof.
   intros Hc. unfold fa_get. destruct (dk f v) as [a|]; [|reflexivity].
   destruct (positions_all sh ps) as [poss|e]; cbn [snd].
@@ -41,18 +41,18 @@ Qed.
 Lemma sub_scan C dk c idx o :
   c_close_on_error C = true -> scan o (snd (sub C dk c idx)) = Some o.
 Proof.
-  intros Hc. destruct c as [f v sh d|sh d a]; simpl; [|reflexivity].
+  intros Hc. destruct c as [f v sh d fl|sh d a]; simpl; [|reflexivity].
   destruct (parse_indices sh idx) as [ps|e]; [|reflexivity].
-  pose proof (fa_get_scan C dk f v sh ps o Hc) as H.
-  destruct (fa_get C dk f v sh ps) as [r t]. exact H.
+  pose proof (fa_get_scan C dk f v sh fl ps o Hc) as H.
+  destruct (fa_get C dk f v sh fl ps) as [r t]. exact H.
 Qed.
 
 Lemma realise_scan C dk c o :
   c_close_on_error C = true -> scan o (snd (realise C dk c)) = Some o.
 Proof.
-  intros Hc. destruct c as [f v sh d|sh d a]; simpl; [|reflexivity].
-  pose proof (fa_get_scan C dk f v sh (full_ps sh) o Hc) as H.
-  destruct (fa_get C dk f v sh (full_ps sh)) as [r t]. exact H.
+  intros Hc. destruct c as [f v sh d fl|sh d a]; simpl; [|reflexivity].
+  pose proof (fa_get_scan C dk f v sh fl (full_ps sh) o Hc) as H.
+  destruct (fa_get C dk f v sh fl (full_ps sh)) as [r t]. exact H.
 Qed.
 
 Definition step_trace (C : cfg) (dk : disk) (h : list cell) (o : op) : trace :=
@@ -80,7 +80,7 @@ Proof.
   - destruct (nth_error h i) as [c|]; [|reflexivity].
     pose proof (sub_scan C dk c (map (fun _ => ISlice (Some 0) (Some 1) (Some 1)) (cshape c)) o Hc) as H.
     destruct (sub C dk c _) as [[c'|e] t]; [|exact H].
-    destruct c' as [? ? ? ?|? ? a]; [exact H|]. destruct (flatten a) as [|x [|y r]]; exact H.
+    destruct c' as [? ? ? ? ?|? ? a]; [exact H|]. destruct (flatten a) as [|x [|y r]]; exact H.
   - destruct (nth_error h i) as [c1|]; [|reflexivity].
     destruct (nth_error h j) as [c2|]; [|reflexivity].
     destruct (Nat.eqb i j); [reflexivity|].
@@ -281,22 +281,28 @@ Qed.
    and the data type it declares is the type the data will have in memory *)
 Definition cell_ok (dk : disk) (c : cell) : Prop :=
   match c with
-  | OnDisk f v sh d => Forall (fun n => 0 <= n) sh /\
-                       forall st, dk f v = Some st ->
-                         shaped (map Z.to_nat sh) (s_raw st) /\ d = s_realised st
+  | OnDisk f v sh d fl => Forall (fun n => 0 <= n) sh /\
+                          forall st, dk f v = Some st ->
+                            shaped (map Z.to_nat sh) (s_raw st) /\ d = s_realised fl st
   | InMem _ _ _ => True
   end.
+
+(* a copy of a file array carries the (mask, unpack) components of its source *)
+Definition copy_keeps (C : cfg) : Prop := forall fl, c_copy_flags C fl = fl.
+
+Lemma copy_cell_id C c : copy_keeps C -> copy_cell C c = c.
+Proof. intros H. destruct c as [f v sh d fl|sh d a]; simpl; [rewrite H|]; reflexivity. Qed.
 
 (* the backend returns what orthogonal selection returns, on the stored arrays *)
 Definition fetch_ok (C : cfg) (dk : disk) : Prop :=
   forall f v st poss, dk f v = Some st -> c_fetch C (s_raw st) poss = orth_take poss (s_raw st).
 
 Lemma vshape_val dk c : vshape (val dk c) = cshape c.
-Proof. destruct c as [f v sh d|sh d a]; simpl; [destruct (dk f v)|]; reflexivity. Qed.
+Proof. destruct c as [f v sh d fl|sh d a]; simpl; [destruct (dk f v)|]; reflexivity. Qed.
 
 Lemma vdtype_val dk c : cell_ok dk c -> vdtype (val dk c) = cdtype c.
 Proof.
-  destruct c as [f v sh d|sh d a]; simpl; [|reflexivity]. intros [_ H].
+  destruct c as [f v sh d fl|sh d a]; simpl; [|reflexivity]. intros [_ H].
   destruct (dk f v) as [st|]; [|reflexivity]. destruct (H st eq_refl) as [_ E]. subst d. reflexivity.
 Qed.
 
@@ -305,7 +311,7 @@ Lemma realise_spec C dk c :
   fst (realise C dk c) =
   match vreal (val dk c) with Ok a => Ok (vdtype (val dk c), a) | Err e => Err e end.
 Proof.
-  intros Hok Hf. destruct c as [f v sh d|sh d a]; [|reflexivity].
+  intros Hok Hf. destruct c as [f v sh d fl|sh d a]; [|reflexivity].
   unfold realise, vreal, val, fa_get.
   destruct Hok as [Hnn Hsh].
   destruct (dk f v) as [st|] eqn:E; [|reflexivity].
@@ -324,7 +330,7 @@ Lemma sub_spec C dk c idx :
   | Err e => Err e
   end.
 Proof.
-  intros Hf. destruct c as [f v sh d|sh d a]; unfold sub, vget, val.
+  intros Hf. destruct c as [f v sh d fl|sh d a]; unfold sub, vget, val.
   - unfold fa_get. destruct (dk f v) as [st|] eqn:E; cbn [vshape vdtype fst snd].
     + destruct (parse_indices sh idx) as [ps|e]; [|reflexivity].
       destruct (positions_all sh ps) as [poss|e]; [|reflexivity].
@@ -378,12 +384,12 @@ Qed.
 (* one operation: same observation as the specification, and the values of the
    new heap are the specification's new heap *)
 Lemma step_denote C dk h op :
-  Forall (cell_ok dk) h -> fetch_ok C dk ->
+  copy_keeps C -> Forall (cell_ok dk) h -> fetch_ok C dk ->
   let '(h', ob, _) := step C dk h op in
   vstep (map (val dk) h) op = (map (val dk) h', ob) /\ Forall (cell_ok dk) h'.
 Proof.
-  intros Hok Hf. destruct op as [i|i idx|i|i|i idx v|i|i j]; simpl; rewrite ?nth_error_map.
-  - destruct (nth_error h i) as [c|] eqn:E; simpl; [|auto].
+  intros Hk Hok Hf. destruct op as [i|i idx|i|i|i idx v|i|i j]; simpl; rewrite ?nth_error_map.
+  - destruct (nth_error h i) as [c|] eqn:E; simpl; [|auto]. rewrite (copy_cell_id C c Hk).
     split; [rewrite map_app; reflexivity|].
     apply Forall_app; split; [exact Hok|constructor; [|constructor]].
     eapply Forall_nth_error; eauto.
@@ -437,40 +443,40 @@ Qed.
 (* every history: lazy access through either backend shows exactly what eager
    access to the arrays shows - values, shapes and data types *)
 Theorem run_denote C dk h ops :
-  Forall (cell_ok dk) h -> fetch_ok C dk ->
+  copy_keeps C -> Forall (cell_ok dk) h -> fetch_ok C dk ->
   map fst (run C dk h ops) = vrun (map (val dk) h) ops.
 Proof.
-  intros Hok Hf. revert h Hok. induction ops as [|o r IH]; intros h Hok; simpl; [reflexivity|].
-  pose proof (step_denote C dk h o Hok Hf) as Hs.
+  intros Hk Hok Hf. revert h Hok. induction ops as [|o r IH]; intros h Hok; simpl; [reflexivity|].
+  pose proof (step_denote C dk h o Hk Hok Hf) as Hs.
   destruct (step C dk h o) as [[h' ob] t]. destruct Hs as [Hv Hok'].
   rewrite Hv. simpl. f_equal. apply IH. exact Hok'.
 Qed.
 
 Lemma step_keeps_ok C dk h o :
-  Forall (cell_ok dk) h -> fetch_ok C dk -> Forall (cell_ok dk) (fst (fst (step C dk h o))).
+  copy_keeps C -> Forall (cell_ok dk) h -> fetch_ok C dk -> Forall (cell_ok dk) (fst (fst (step C dk h o))).
 Proof.
-  intros Hok Hf. pose proof (step_denote C dk h o Hok Hf) as Hs.
+  intros Hk Hok Hf. pose proof (step_denote C dk h o Hk Hok Hf) as Hs.
   destruct (step C dk h o) as [[h' ob] t]. destruct Hs; assumption.
 Qed.
 
 (* eager heap *)
 Lemma val_eager dk c : cell_ok dk c -> val dk (eager_cell dk c) = val dk c.
 Proof.
-  destruct c as [f v sh d|sh d a]; [|reflexivity]. unfold eager_cell, val. intros _.
+  destruct c as [f v sh d fl|sh d a]; [|reflexivity]. unfold eager_cell, val. intros _.
   destruct (dk f v) eqn:E; simpl; rewrite ?E; reflexivity.
 Qed.
 
 Lemma cell_ok_eager dk c : cell_ok dk c -> cell_ok dk (eager_cell dk c).
 Proof.
-  destruct c as [f v sh d|sh d a]; [|auto]. unfold eager_cell.
+  destruct c as [f v sh d fl|sh d a]; [|auto]. unfold eager_cell.
   destruct (dk f v); [intros _; exact I|auto].
 Qed.
 
 Theorem lazy_eq_eager C dk h ops :
-  Forall (cell_ok dk) h -> fetch_ok C dk ->
+  copy_keeps C -> Forall (cell_ok dk) h -> fetch_ok C dk ->
   map fst (run C dk h ops) = map fst (run C dk (map (eager_cell dk) h) ops).
 Proof.
-  intros Hok Hf. rewrite !run_denote; auto.
+  intros Hk Hok Hf. rewrite !run_denote; auto.
   - rewrite map_map. f_equal. apply map_ext_in. intros c Hc. symmetry. apply val_eager.
     rewrite Forall_forall in Hok. auto.
   - apply Forall_forall. intros c Hc. apply in_map_iff in Hc as [c0 [E Hin]]. subst c.
@@ -479,11 +485,11 @@ Qed.
 
 (* bringing any object into memory at any point changes no later result *)
 Theorem to_memory_transparent C dk h i ops :
-  Forall (cell_ok dk) h -> fetch_ok C dk ->
+  copy_keeps C -> Forall (cell_ok dk) h -> fetch_ok C dk ->
   (forall c, nth_error h i = Some c -> content dk c <> None) ->
   map fst (run C dk h ops) = map fst (run C dk (run_heap C dk h [OToMem i]) ops).
 Proof.
-  intros Hok Hf Hc. rewrite !run_denote; auto.
+  intros Hk Hok Hf Hc. rewrite !run_denote; auto.
   - f_equal. simpl. destruct (nth_error h i) as [c|] eqn:E; [|reflexivity].
     assert (Hck : cell_ok dk c) by (eapply Forall_nth_error; eauto).
     destruct (realise_cases C dk c Hck Hf) as [[a [t [Hr Hv]]]|[e [t [Hr Hv]]]]; rewrite Hr; [|reflexivity].
@@ -491,7 +497,7 @@ Proof.
     clear -E. revert i E. induction h as [|x r IH]; intros [|i] E; simpl in *; try discriminate.
     + inversion E; subst. reflexivity.
     + f_equal. apply IH. exact E.
-  - pose proof (step_keeps_ok C dk h (OToMem i) Hok Hf) as H. cbn [run_heap].
+  - pose proof (step_keeps_ok C dk h (OToMem i) Hk Hok Hf) as H. cbn [run_heap].
     destruct (step C dk h (OToMem i)) as [[h' ob] t]. exact H.
 Qed.
 
@@ -548,14 +554,14 @@ Proof.
     + eapply IH; eauto.
 Qed.
 
-Theorem sub_fetch_only C dk f v sh d idx r t :
-  Forall (fun n => 0 <= n) sh -> sub C dk (OnDisk f v sh d) idx = (r, t) ->
+Theorem sub_fetch_only C dk f v sh d fl idx r t :
+  Forall (fun n => 0 <= n) sh -> sub C dk (OnDisk f v sh d fl) idx = (r, t) ->
   match r with
   | Ok c' => exists ps poss st,
       parse_indices sh idx = Ok ps /\ positions_all sh ps = Ok poss /\ dk f v = Some st /\
       t = [EOpen f; EFetch f v poss; EClose f] /\
-      c' = InMem (zshape (map (@length nat) poss)) (s_realised st)
-                 (nd_map (unpack_val (s_dt st) (s_pack st)) (c_fetch C (s_raw st) poss)) /\
+      c' = InMem (zshape (map (@length nat) poss)) (s_realised fl st)
+                 (nd_map (present fl st) (c_fetch C (s_raw st) poss)) /\
       Forall2 (fun n p => Forall (fun i => Z.of_nat i < n) p) sh poss
   | Err _ => fetches t = []
   end.
@@ -578,26 +584,27 @@ Proof. reflexivity. Qed.
 (* ------------------------------------------------------------------------- *)
 Definition same_backend (C1 C2 : cfg) (dk : disk) : Prop :=
   c_close_on_error C1 = c_close_on_error C2 /\
+  (forall fl, c_copy_flags C1 fl = c_copy_flags C2 fl) /\
   forall f v st poss, dk f v = Some st -> c_fetch C1 (s_raw st) poss = c_fetch C2 (s_raw st) poss.
 
-Lemma fa_get_blind C1 C2 dk f v sh ps :
-  same_backend C1 C2 dk -> fa_get C1 dk f v sh ps = fa_get C2 dk f v sh ps.
+Lemma fa_get_blind C1 C2 dk f v sh fl ps :
+  same_backend C1 C2 dk -> fa_get C1 dk f v sh fl ps = fa_get C2 dk f v sh fl ps.
 Proof.
-  intros [Hc Hf]. unfold fa_get. destruct (dk f v) as [a|] eqn:E; [|reflexivity].
+  intros [Hc [_ Hf]]. unfold fa_get. destruct (dk f v) as [a|] eqn:E; [|reflexivity].
   destruct (positions_all sh ps) as [poss|e]; [rewrite (Hf f v a poss E)|rewrite Hc]; reflexivity.
 Qed.
 
 Lemma sub_blind C1 C2 dk c idx : same_backend C1 C2 dk -> sub C1 dk c idx = sub C2 dk c idx.
 Proof.
-  intros H. destruct c as [f v sh d|sh d a]; [|reflexivity]. unfold sub.
+  intros H. destruct c as [f v sh d fl|sh d a]; [|reflexivity]. unfold sub.
   destruct (parse_indices sh idx) as [ps|e]; [|reflexivity].
-  rewrite (fa_get_blind C1 C2 dk f v sh ps H). reflexivity.
+  rewrite (fa_get_blind C1 C2 dk f v sh fl ps H). reflexivity.
 Qed.
 
 Lemma realise_blind C1 C2 dk c : same_backend C1 C2 dk -> realise C1 dk c = realise C2 dk c.
 Proof.
-  intros H. destruct c as [f v sh d|sh d a]; [|reflexivity]. unfold realise.
-  rewrite (fa_get_blind C1 C2 dk f v sh _ H). reflexivity.
+  intros H. destruct c as [f v sh d fl|sh d a]; [|reflexivity]. unfold realise.
+  rewrite (fa_get_blind C1 C2 dk f v sh fl _ H). reflexivity.
 Qed.
 
 Lemma step_blind C1 C2 dk h op : same_backend C1 C2 dk -> step C1 dk h op = step C2 dk h op.
@@ -605,8 +612,9 @@ Proof.
   intros H. destruct op as [i|i idx|i|i|i idx v|i|i j]; simpl;
     try (destruct (nth_error h i) as [c|]; [|reflexivity]);
     rewrite ?(sub_blind C1 C2 dk _ _ H), ?(realise_blind C1 C2 dk _ H); try reflexivity.
-  destruct (nth_error h j) as [c2|]; [|reflexivity].
-  rewrite ?(realise_blind C1 C2 dk _ H). reflexivity.
+  - destruct H as [_ [Hk _]]. destruct c as [f v sh d fl|sh d a]; simpl; [rewrite Hk|]; reflexivity.
+  - destruct (nth_error h j) as [c2|]; [|reflexivity].
+    rewrite ?(realise_blind C1 C2 dk _ H). reflexivity.
 Qed.
 
 (* results, traces and final objects of every history are the same *)
@@ -706,13 +714,13 @@ Lemma fetch_ok_h5 dk : fetch_ok cfg_h5 dk.
 Proof. intros f v a poss _. apply h5_is_nc4. Qed.
 
 Lemma same_backend_nc4_h5 dk : same_backend cfg_nc4 cfg_h5 dk.
-Proof. split; [reflexivity|]. intros f v a poss _. symmetry. apply h5_is_nc4. Qed.
+Proof. split; [reflexivity|]. split; [reflexivity|]. intros f v a poss _. symmetry. apply h5_is_nc4. Qed.
 
 (* ------------------------------------------------------------------------- *)
 (* read                                                                        *)
 (* ------------------------------------------------------------------------- *)
-Lemma realise_fetches C dk f v sh d fv vv p :
-  In (fv, vv, p) (fetches (snd (realise C dk (OnDisk f v sh d)))) -> fv = f /\ vv = v.
+Lemma realise_fetches C dk f v sh d fl fv vv p :
+  In (fv, vv, p) (fetches (snd (realise C dk (OnDisk f v sh d fl)))) -> fv = f /\ vv = v.
 Proof.
   unfold realise, fa_get. destruct (dk f v) as [a|]; [|simpl; tauto].
   destruct (positions_all sh (full_ps sh)) as [poss|e]; simpl.
@@ -720,24 +728,24 @@ Proof.
   - destruct (c_close_on_error C); simpl; tauto.
 Qed.
 
-Lemma read_var_fetches C dk f d fv vv p :
-  In (fv, vv, p) (fetches (snd (read_var C dk f d))) ->
+Lemma read_var_fetches C dk f fl d fv vv p :
+  In (fv, vv, p) (fetches (snd (read_var C dk f fl d))) ->
   fv = f /\ vv = vd_var d /\ read_fetches d = true.
 Proof.
   unfold read_var. destruct (read_fetches d) eqn:E; [|simpl; tauto].
-  pose proof (realise_fetches C dk f (vd_var d) (vd_shape d) (declared_of C dk f d) fv vv p) as H.
-  destruct (realise C dk (OnDisk f (vd_var d) (vd_shape d) (declared_of C dk f d))) as [[[ty a]|e] t]; cbn [snd] in *.
+  pose proof (realise_fetches C dk f (vd_var d) (vd_shape d) (declared_of C dk f fl d) fl fv vv p) as H.
+  destruct (realise C dk (OnDisk f (vd_var d) (vd_shape d) (declared_of C dk f fl d) fl)) as [[[ty a]|e] t]; cbn [snd] in *.
   - destruct (vd_role d); cbn [snd]; intros Hin; destruct (H Hin); auto.
   - intros Hin; destruct (H Hin); auto.
 Qed.
 
-Lemma read_vars_fetches C dk f ds fv vv p :
-  In (fv, vv, p) (fetches (snd (read_vars C dk f ds))) ->
+Lemma read_vars_fetches C dk f fl ds fv vv p :
+  In (fv, vv, p) (fetches (snd (read_vars C dk f fl ds))) ->
   fv = f /\ exists d, In d ds /\ vd_var d = vv /\ read_fetches d = true.
 Proof.
   induction ds as [|d r IH]; simpl; [tauto|].
-  pose proof (read_var_fetches C dk f d fv vv p) as Hv.
-  destruct (read_var C dk f d) as [c t]. destruct (read_vars C dk f r) as [cs ts].
+  pose proof (read_var_fetches C dk f fl d fv vv p) as Hv.
+  destruct (read_var C dk f fl d) as [c t]. destruct (read_vars C dk f fl r) as [cs ts].
   cbn [snd] in *. rewrite fetches_app. intros Hin. apply in_app_or in Hin as [Hin|Hin].
   - destruct (Hv Hin) as [H1 [H2 H3]]. split; [exact H1|]. exists d. auto.
   - destruct (IH Hin) as [H1 [d' [H2 [H3 H4]]]]. split; [exact H1|]. exists d'. auto.
@@ -752,22 +760,22 @@ Proof.
 Qed.
 
 (* the only variables whose values read looks at *)
-Theorem read_lazy C dk f ds fv vv p :
-  In (fv, vv, p) (fetches (snd (read C dk f ds))) ->
+Theorem read_lazy C dk f fl ds fv vv p :
+  In (fv, vv, p) (fetches (snd (read C dk f fl ds))) ->
   fv = f /\ exists d, In d ds /\ vd_var d = vv /\
     ((vd_role d = RScalarCoord /\ vd_shape d = []) \/ count_like (vd_role d) = true \/
      vd_role d = RNodeCoord).
 Proof.
-  unfold read. pose proof (read_vars_fetches C dk f ds fv vv p) as H.
-  destruct (read_vars C dk f ds) as [cs t]. cbn [snd] in *.
+  unfold read. pose proof (read_vars_fetches C dk f fl ds fv vv p) as H.
+  destruct (read_vars C dk f fl ds) as [cs t]. cbn [snd] in *.
   intros Hin. simpl in Hin. rewrite fetches_app in Hin. simpl in Hin. rewrite app_nil_r in Hin.
   destruct (H Hin) as [H1 [d [H2 [H3 H4]]]]. split; [exact H1|]. exists d. splits; auto.
   apply read_fetches_cases. exact H4.
 Qed.
 
-Lemma read_var_cells C dk f d :
+Lemma read_var_cells C dk f fl d :
   vd_role d <> RScalarCoord -> vd_role d <> RNodeCoord ->
-  fst (read_var C dk f d) = [OnDisk f (vd_var d) (vd_shape d) (declared_of C dk f d)].
+  fst (read_var C dk f fl d) = [OnDisk f (vd_var d) (vd_shape d) (declared_of C dk f fl d) fl].
 Proof.
   intros H1 H2. unfold read_var. destruct (read_fetches d); [|reflexivity].
   destruct (realise C dk _) as [[[ty a]|e] t]; [|reflexivity].
@@ -775,62 +783,62 @@ Proof.
 Qed.
 
 (* after read, every other variable is still on disk *)
-Theorem read_on_disk C dk f ds d :
+Theorem read_on_disk C dk f fl ds d :
   In d ds -> vd_role d <> RScalarCoord -> vd_role d <> RNodeCoord ->
-  In (OnDisk f (vd_var d) (vd_shape d) (declared_of C dk f d)) (fst (read C dk f ds)).
+  In (OnDisk f (vd_var d) (vd_shape d) (declared_of C dk f fl d) fl) (fst (read C dk f fl ds)).
 Proof.
   intros Hin H1 H2. unfold read.
-  assert (H : In (OnDisk f (vd_var d) (vd_shape d) (declared_of C dk f d)) (fst (read_vars C dk f ds))).
+  assert (H : In (OnDisk f (vd_var d) (vd_shape d) (declared_of C dk f fl d) fl) (fst (read_vars C dk f fl ds))).
   { induction ds as [|d0 r IH]; [contradiction|]. simpl.
-    pose proof (read_var_cells C dk f d0) as Hc.
-    destruct (read_var C dk f d0) as [c t]. destruct (read_vars C dk f r) as [cs ts].
+    pose proof (read_var_cells C dk f fl d0) as Hc.
+    destruct (read_var C dk f fl d0) as [c t]. destruct (read_vars C dk f fl r) as [cs ts].
     cbn [fst] in *. apply in_or_app. destruct Hin as [E|Hin].
     - subst d0. left. rewrite (Hc H1 H2). left. reflexivity.
     - right. apply IH. exact Hin. }
-  destruct (read_vars C dk f ds) as [cs t]. exact H.
+  destruct (read_vars C dk f fl ds) as [cs t]. exact H.
 Qed.
 
-Lemma read_var_scan C dk f d o :
-  c_close_on_error C = true -> scan o (snd (read_var C dk f d)) = Some o.
+Lemma read_var_scan C dk f fl d o :
+  c_close_on_error C = true -> scan o (snd (read_var C dk f fl d)) = Some o.
 Proof.
   intros Hc. unfold read_var. destruct (read_fetches d); [|reflexivity].
-  pose proof (realise_scan C dk (OnDisk f (vd_var d) (vd_shape d) (declared_of C dk f d)) o Hc) as H.
+  pose proof (realise_scan C dk (OnDisk f (vd_var d) (vd_shape d) (declared_of C dk f fl d) fl) o Hc) as H.
   destruct (realise C dk _) as [[[ty a]|e] t]; cbn [snd] in *; [|exact H].
   destruct (vd_role d); exact H.
 Qed.
 
-Lemma read_vars_scan C dk f ds o :
-  c_close_on_error C = true -> scan o (snd (read_vars C dk f ds)) = Some o.
+Lemma read_vars_scan C dk f fl ds o :
+  c_close_on_error C = true -> scan o (snd (read_vars C dk f fl ds)) = Some o.
 Proof.
   intros Hc. induction ds as [|d r IH]; simpl; [reflexivity|].
-  pose proof (read_var_scan C dk f d o Hc) as H.
-  destruct (read_var C dk f d) as [c t]. destruct (read_vars C dk f r) as [cs ts].
+  pose proof (read_var_scan C dk f fl d o Hc) as H.
+  destruct (read_var C dk f fl d) as [c t]. destruct (read_vars C dk f fl r) as [cs ts].
   cbn [snd] in *. rewrite scan_app, H. exact IH.
 Qed.
 
-Theorem read_balanced C dk f ds :
-  c_close_on_error C = true -> balanced (snd (read C dk f ds)).
+Theorem read_balanced C dk f fl ds :
+  c_close_on_error C = true -> balanced (snd (read C dk f fl ds)).
 Proof.
   intros Hc. unfold read, balanced.
-  pose proof (read_vars_scan C dk f ds [f] Hc) as H.
-  destruct (read_vars C dk f ds) as [cs t]. cbn [snd] in *.
+  pose proof (read_vars_scan C dk f fl ds [f] Hc) as H.
+  destruct (read_vars C dk f fl ds) as [cs t]. cbn [snd] in *.
   simpl. rewrite scan_app, H. simpl. rewrite Z.eqb_refl. reflexivity.
 Qed.
 
 (* a read followed by any history: nothing is left open *)
-Theorem read_then_run_balanced C dk f ds ops :
+Theorem read_then_run_balanced C dk f fl ds ops :
   c_close_on_error C = true ->
-  balanced (snd (read C dk f ds) ++ concat (map snd (run C dk (fst (read C dk f ds)) ops))).
+  balanced (snd (read C dk f fl ds) ++ concat (map snd (run C dk (fst (read C dk f fl ds)) ops))).
 Proof.
   intros Hc. unfold balanced. rewrite scan_app.
-  rewrite (read_balanced C dk f ds Hc). apply run_balanced. exact Hc.
+  rewrite (read_balanced C dk f fl ds Hc). apply run_balanced. exact Hc.
 Qed.
 
 (* ------------------------------------------------------------------------- *)
 (* witnesses                                                                   *)
 (* ------------------------------------------------------------------------- *)
 Definition mk_stored (d : dt) (p : pack) (sh : list nat) (fl : list Z) : stored :=
-  {| s_dt := d; s_pack := p; s_raw := reshape sh (map Some fl) |}.
+  {| s_dt := d; s_pack := p; s_raw := reshape sh (map Some fl); s_fill := -99 |}.
 
 Definition pack_ex : pack := {| p_unsigned := false; p_scale := Some (F4, 2); p_offset := Some (F8, 0) |}.
 Definition pack_sf : pack := {| p_unsigned := false; p_scale := Some (F4, 2); p_offset := None |}.
@@ -846,7 +854,7 @@ Definition dk_ex : disk :=
            (0, 4, mk_stored I2 pack_sf [3%nat] [1; 2; 3]);
            (0, 5, mk_stored I1 {| p_unsigned := true; p_scale := None; p_offset := None |} [2%nat] [-1; 3])].
 
-Definition heap_ex : list cell := [OnDisk 0 0 [3; 4] F8].
+Definition heap_ex : list cell := [OnDisk 0 0 [3; 4] F8 flags_default].
 
 Lemma heap_ex_ok : Forall (cell_ok dk_ex) heap_ex.
 Proof.
@@ -880,16 +888,16 @@ Definition ds_geometry : list vdesc :=
 
 Lemma read_unrestricted_refuted :
   exists dk f ds d, In d ds /\ (1 <= length (vd_shape d))%nat /\
-    In (vd_var d) (fetched_vars (snd (read cfg_nc4 dk f ds))).
+    In (vd_var d) (fetched_vars (snd (read cfg_nc4 dk f flags_default ds))).
 Proof.
   exists dk_ex, 0, ds_geometry, {| vd_var := 2; vd_shape := [2]; vd_role := RNodeCount |}.
   split; [simpl; tauto|]. split; [simpl; lia|]. vm_compute. tauto.
 Qed.
 
 Lemma read_example :
-  fetched_vars (snd (read cfg_nc4 dk_ex 0 ds_geometry)) = [1; 2; 3] /\
-  fst (read cfg_nc4 dk_ex 0 ds_geometry) =
-    [OnDisk 0 0 [3; 4] F8; InMem [1] I4 (Node [Leaf (Some 5)]); OnDisk 0 2 [2] I4; OnDisk 0 3 [2] I4].
+  fetched_vars (snd (read cfg_nc4 dk_ex 0 flags_default ds_geometry)) = [1; 2; 3] /\
+  fst (read cfg_nc4 dk_ex 0 flags_default ds_geometry) =
+    [OnDisk 0 0 [3; 4] F8 flags_default; InMem [1] I4 (Node [Leaf (Some 5)]); OnDisk 0 2 [2] I4 flags_default; OnDisk 0 3 [2] I4 flags_default].
 Proof. vm_compute. split; reflexivity. Qed.
 
 (* non-vacuity of run_denote / sub_fetch_only: a history with real work on packed
@@ -923,51 +931,51 @@ Definition vdesc_ok (dk : disk) (f : Z) (d : vdesc) : Prop :=
   exists st, dk f (vd_var d) = Some st /\ shaped (map Z.to_nat (vd_shape d)) (s_raw st).
 
 Definition declares_realised (C : cfg) : Prop :=
-  forall b v p, c_declare C b v p = realised_dt v p.
+  forall b fl v p, c_declare C b (fl_unpack fl) v p = realised_fl fl v p.
 
 Lemma declares_realised_nc4 : declares_realised cfg_nc4.
-Proof. intros b v p. reflexivity. Qed.
+Proof. intros b fl v p. reflexivity. Qed.
 
 Lemma declares_realised_h5 : declares_realised cfg_h5.
-Proof. intros b v p. reflexivity. Qed.
+Proof. intros b fl v p. reflexivity. Qed.
 
-Lemma declared_cell_ok C dk f d :
+Lemma declared_cell_ok C dk f fl d :
   declares_realised C -> vdesc_ok dk f d ->
-  cell_ok dk (OnDisk f (vd_var d) (vd_shape d) (declared_of C dk f d)).
+  cell_ok dk (OnDisk f (vd_var d) (vd_shape d) (declared_of C dk f fl d) fl).
 Proof.
   intros HC [Hnn [st [E Hsh]]]. split; [exact Hnn|].
   intros st' E'. rewrite E in E'. inversion E'; subst st'. split; [exact Hsh|].
   unfold declared_of. rewrite E. apply HC.
 Qed.
 
-Lemma read_var_cells_ok C dk f d :
-  declares_realised C -> vdesc_ok dk f d -> Forall (cell_ok dk) (fst (read_var C dk f d)).
+Lemma read_var_cells_ok C dk f fl d :
+  declares_realised C -> vdesc_ok dk f d -> Forall (cell_ok dk) (fst (read_var C dk f fl d)).
 Proof.
-  intros HC Hd. pose proof (declared_cell_ok C dk f d HC Hd) as Hc. unfold read_var.
+  intros HC Hd. pose proof (declared_cell_ok C dk f fl d HC Hd) as Hc. unfold read_var.
   destruct (read_fetches d); [|constructor; [exact Hc|constructor]].
   destruct (realise C dk _) as [[[ty a]|e] t]; [|constructor; [exact Hc|constructor]].
   destruct (vd_role d); (constructor; [first [exact Hc|exact I]|constructor]).
 Qed.
 
 (* every object read returns declares the data type its data will have in memory *)
-Theorem read_cells_ok C dk f ds :
-  declares_realised C -> Forall (vdesc_ok dk f) ds -> Forall (cell_ok dk) (fst (read C dk f ds)).
+Theorem read_cells_ok C dk f fl ds :
+  declares_realised C -> Forall (vdesc_ok dk f) ds -> Forall (cell_ok dk) (fst (read C dk f fl ds)).
 Proof.
   intros HC Hds. unfold read.
-  assert (H : Forall (cell_ok dk) (fst (read_vars C dk f ds))).
+  assert (H : Forall (cell_ok dk) (fst (read_vars C dk f fl ds))).
   { induction Hds as [|d r Hd Hr IH]; simpl; [constructor|].
-    pose proof (read_var_cells_ok C dk f d HC Hd) as Hv.
-    destruct (read_var C dk f d) as [c t]. destruct (read_vars C dk f r) as [cs ts].
+    pose proof (read_var_cells_ok C dk f fl d HC Hd) as Hv.
+    destruct (read_var C dk f fl d) as [c t]. destruct (read_vars C dk f fl r) as [cs ts].
     cbn [fst] in *. apply Forall_app. split; assumption. }
-  destruct (read_vars C dk f ds) as [cs t]. exact H.
+  destruct (read_vars C dk f fl ds) as [cs t]. exact H.
 Qed.
 
 (* ... so every history on what read returned shows what eager access shows,
    data types included: bringing data into memory changes no result *)
-Theorem read_then_lazy_is_eager C dk f ds ops :
-  declares_realised C -> fetch_ok C dk -> Forall (vdesc_ok dk f) ds ->
-  map fst (run C dk (fst (read C dk f ds)) ops) = vrun (map (val dk) (fst (read C dk f ds))) ops.
-Proof. intros HC Hf Hds. apply run_denote; [apply read_cells_ok; assumption|exact Hf]. Qed.
+Theorem read_then_lazy_is_eager C dk f fl ds ops :
+  copy_keeps C -> declares_realised C -> fetch_ok C dk -> Forall (vdesc_ok dk f) ds ->
+  map fst (run C dk (fst (read C dk f fl ds)) ops) = vrun (map (val dk) (fst (read C dk f fl ds))) ops.
+Proof. intros Hk HC Hf Hds. apply run_denote; [exact Hk|apply read_cells_ok; assumption|exact Hf]. Qed.
 
 (* and x.equals(copy of x brought into memory) is True, for every object whose
    declared data type is right - in particular for everything read returns *)
@@ -996,27 +1004,27 @@ Proof.
 Qed.
 
 Theorem equals_own_memory_copy C dk h i c :
-  Forall (cell_ok dk) h -> fetch_ok C dk ->
+  copy_keeps C -> Forall (cell_ok dk) h -> fetch_ok C dk ->
   nth_error h i = Some c -> content dk c <> None ->
   map fst (run C dk h [OCopy i; OToMem (length h); OEq i (length h)]) = [ONone; ONone; OBool true].
 Proof.
-  intros Hok Hf E Hc. rewrite run_denote by assumption.
+  intros Hk Hok Hf E Hc. rewrite run_denote by assumption.
   assert (Hv : exists sh d a, val dk c = (sh, d, Some a)).
-  { destruct c as [f0 v0 sh0 d0|sh0 d0 a0]; simpl in *; [|eauto].
+  { destruct c as [f0 v0 sh0 d0 fl0|sh0 d0 a0]; simpl in *; [|eauto].
     destruct (dk f0 v0); [eauto|congruence]. }
   destruct Hv as [sh [d [a Hv]]].
   rewrite <- (map_length (val dk) h). apply (vrun_copy_eq _ i sh d a).
   rewrite nth_error_map, E. simpl. rewrite Hv. reflexivity.
 Qed.
 
-Theorem read_equals_own_memory_copy C dk f ds i c :
-  declares_realised C -> fetch_ok C dk -> Forall (vdesc_ok dk f) ds ->
-  nth_error (fst (read C dk f ds)) i = Some c -> content dk c <> None ->
-  map fst (run C dk (fst (read C dk f ds))
-             [OCopy i; OToMem (length (fst (read C dk f ds))); OEq i (length (fst (read C dk f ds)))]) =
+Theorem read_equals_own_memory_copy C dk f fl ds i c :
+  copy_keeps C -> declares_realised C -> fetch_ok C dk -> Forall (vdesc_ok dk f) ds ->
+  nth_error (fst (read C dk f fl ds)) i = Some c -> content dk c <> None ->
+  map fst (run C dk (fst (read C dk f fl ds))
+             [OCopy i; OToMem (length (fst (read C dk f fl ds))); OEq i (length (fst (read C dk f fl ds)))]) =
   [ONone; ONone; OBool true].
 Proof.
-  intros HC Hf Hds E Hc. eapply equals_own_memory_copy; eauto. apply read_cells_ok; assumption.
+  intros Hk HC Hf Hds E Hc. eapply equals_own_memory_copy; eauto. apply read_cells_ok; assumption.
 Qed.
 
 (* the code as it was: a packed coordinate variable (short, float32 scale_factor)
@@ -1041,19 +1049,19 @@ Qed.
 
 Lemma declared_old_refuted :
   Forall (vdesc_ok dk_ex 0) ds_packed /\ fetch_ok cfg_nc4_old2 dk_ex /\
-  map cdtype (fst (read cfg_nc4_old2 dk_ex 0 ds_packed)) = [F8; I2; I1] /\
-  map (fun c => vdtype (val dk_ex c)) (fst (read cfg_nc4_old2 dk_ex 0 ds_packed)) = [F8; F4; U1] /\
-  map fst (run cfg_nc4_old2 dk_ex (fst (read cfg_nc4_old2 dk_ex 0 ds_packed))
+  map cdtype (fst (read cfg_nc4_old2 dk_ex 0 flags_default ds_packed)) = [F8; I2; I1] /\
+  map (fun c => vdtype (val dk_ex c)) (fst (read cfg_nc4_old2 dk_ex 0 flags_default ds_packed)) = [F8; F4; U1] /\
+  map fst (run cfg_nc4_old2 dk_ex (fst (read cfg_nc4_old2 dk_ex 0 flags_default ds_packed))
              [OCopy 1; OToMem 3; OEq 1 3; OCopy 2; OToMem 4; OEq 2 4]) =
     [ONone; ONone; OBool false; ONone; ONone; OBool false] /\
-  vrun (map (val dk_ex) (fst (read cfg_nc4_old2 dk_ex 0 ds_packed)))
+  vrun (map (val dk_ex) (fst (read cfg_nc4_old2 dk_ex 0 flags_default ds_packed)))
              [OCopy 1; OToMem 3; OEq 1 3; OCopy 2; OToMem 4; OEq 2 4] =
     [ONone; ONone; OBool true; ONone; ONone; OBool true] /\
   (let ds := [{| vd_var := 0; vd_shape := [2]; vd_role := RData |}] in
    Forall (vdesc_ok dk_trivial 0) ds /\
-   map fst (run cfg_nc4_old2 dk_trivial (fst (read cfg_nc4_old2 dk_trivial 0 ds)) [OCopy 0; OToMem 1; OEq 0 1; OArr 0]) =
+   map fst (run cfg_nc4_old2 dk_trivial (fst (read cfg_nc4_old2 dk_trivial 0 flags_default ds)) [OCopy 0; OToMem 1; OEq 0 1; OArr 0]) =
      [ONone; ONone; OBool false; OArray [2] F4 [Some 7; Some 8]] /\
-   map cdtype (fst (read cfg_nc4_old2 dk_trivial 0 ds)) = [F8]).
+   map cdtype (fst (read cfg_nc4_old2 dk_trivial 0 flags_default ds)) = [F8]).
 Proof.
   split; [exact ds_packed_ok|]. split; [intros f v a poss _; reflexivity|].
   split; [vm_compute; reflexivity|]. split; [vm_compute; reflexivity|].
@@ -1065,8 +1073,8 @@ Qed.
 
 (* the same three objects with the repaired code *)
 Lemma declared_example :
-  map cdtype (fst (read cfg_nc4 dk_ex 0 ds_packed)) = [F8; F4; U1] /\
-  map fst (run cfg_h5 dk_ex (fst (read cfg_h5 dk_ex 0 ds_packed))
+  map cdtype (fst (read cfg_nc4 dk_ex 0 flags_default ds_packed)) = [F8; F4; U1] /\
+  map fst (run cfg_h5 dk_ex (fst (read cfg_h5 dk_ex 0 flags_default ds_packed))
              [OCopy 1; OToMem 3; OEq 1 3; OCopy 2; OToMem 4; OEq 2 4; OArr 1; OArr 2]) =
     [ONone; ONone; OBool true; ONone; ONone; OBool true;
      OArray [3] F4 [Some 2; Some 4; Some 6]; OArray [2] U1 [Some 255; Some 3]].
@@ -1132,3 +1140,140 @@ Lemma both_attributes_type_depends_on_values :
   unpack_z I4 {| p_unsigned := false; p_scale := Some (I2, 1); p_offset := None |} 70000 = 70000 /\
   unpack_z I2 {| p_unsigned := true; p_scale := Some (I2, 1); p_offset := None |} (-5) = 65531.
 Proof. vm_compute. repeat split; reflexivity. Qed.
+
+(* ------------------------------------------------------------------------- *)
+(* the read options (mask, unpack) travel with every derived array             *)
+(* ------------------------------------------------------------------------- *)
+Definition has_flags (fl0 : flags) (c : cell) : Prop :=
+  match c with OnDisk _ _ _ _ fl => fl = fl0 | InMem _ _ _ => True end.
+
+Lemma sub_in_mem C dk c idx c' t : sub C dk c idx = (Ok c', t) -> exists sh d a, c' = InMem sh d a.
+Proof.
+  destruct c as [f v sh d fl|sh d a]; unfold sub.
+  - destruct (parse_indices sh idx) as [ps|e]; [|discriminate].
+    destruct (fa_get C dk f v sh fl ps) as [[r|e] t0]; simpl; intros H; inversion H. unfold to_cell. eauto.
+  - destruct (getitem sh a idx) as [r|e]; simpl; intros H; inversion H. eauto.
+Qed.
+
+Lemma step_keeps_flags C dk fl0 h o :
+  copy_keeps C -> Forall (has_flags fl0) h -> Forall (has_flags fl0) (fst (fst (step C dk h o))).
+Proof.
+  intros Hk Hh. destruct o as [i|i idx|i|i|i idx v|i|i j]; simpl.
+  - destruct (nth_error h i) as [c|] eqn:E; [|exact Hh]. cbn [fst]. rewrite (copy_cell_id C c Hk).
+    apply Forall_app. split; [exact Hh|]. constructor; [|constructor]. eapply Forall_nth_error; eauto.
+  - destruct (nth_error h i) as [c|] eqn:E; [|exact Hh].
+    destruct (sub C dk c idx) as [[c'|e] t] eqn:Es; [|exact Hh]. cbn [fst].
+    apply sub_in_mem in Es. destruct Es as [sh [d [a Ec]]]. subst c'.
+    apply Forall_app. split; [exact Hh|]. constructor; [exact I|constructor].
+  - destruct (nth_error h i) as [c|]; [|exact Hh].
+    destruct (realise C dk c) as [[[d a]|e] t]; [|exact Hh]. cbn [fst]. apply Forall_set_at; [exact I|exact Hh].
+  - destruct (nth_error h i) as [c|]; [|exact Hh].
+    destruct (realise C dk c) as [[[d a]|e] t]; exact Hh.
+  - destruct (nth_error h i) as [c|]; [|exact Hh].
+    destruct (parse_indices (cshape c) idx) as [ps0|e0]; [|exact Hh].
+    destruct (realise C dk c) as [[[d0 a0]|e] t]; [|exact Hh].
+    destruct (setitem _ _ _ _ _) as [a1|e1]; [|exact Hh]. cbn [fst]. apply Forall_set_at; [exact I|exact Hh].
+  - destruct (nth_error h i) as [c|]; [|exact Hh].
+    destruct (sub C dk c _) as [[c'|e] t]; [|exact Hh].
+    destruct c' as [? ? ? ? ?|? ? a]; [exact Hh|]. destruct (flatten a) as [|x [|y r]]; exact Hh.
+  - destruct (nth_error h i) as [c1|]; [|exact Hh]. destruct (nth_error h j) as [c2|]; [|exact Hh].
+    destruct (Nat.eqb i j); [exact Hh|]. destruct (negb _); [exact Hh|]. destruct (negb _); [exact Hh|].
+    destruct (realise C dk c1) as [[[d1 a1]|e] t1]; [|exact Hh].
+    destruct (realise C dk c2) as [[[d2 a2]|e] t2]; exact Hh.
+Qed.
+
+(* every array reachable by a history carries the flags of the arrays it started from *)
+Theorem run_keeps_flags C dk fl0 h ops :
+  copy_keeps C -> Forall (has_flags fl0) h -> Forall (has_flags fl0) (run_heap C dk h ops).
+Proof.
+  intros Hk. revert h. induction ops as [|o r IH]; intros h Hh; simpl; [exact Hh|].
+  pose proof (step_keeps_flags C dk fl0 h o Hk Hh) as Hs.
+  destruct (step C dk h o) as [[h' ob] t]. apply IH. exact Hs.
+Qed.
+
+Lemma val_val0 fl0 dk c : has_flags fl0 c -> val dk c = val0 fl0 dk c.
+Proof. destruct c as [f v sh d fl|sh d a]; simpl; [intros E; subst|]; reflexivity. Qed.
+
+(* ... hence lazy = eager under every combination of the read options: the
+   results are those of eager access with the options of the READ *)
+Theorem lazy_is_eager_under_options C dk fl0 h ops :
+  copy_keeps C -> Forall (cell_ok dk) h -> fetch_ok C dk -> Forall (has_flags fl0) h ->
+  map fst (run C dk h ops) = vrun (map (val0 fl0 dk) h) ops.
+Proof.
+  intros Hk Hok Hf Hfl. rewrite run_denote by assumption. f_equal.
+  apply map_ext_in. intros c Hc. apply val_val0. rewrite Forall_forall in Hfl. auto.
+Qed.
+
+Lemma read_var_has_flags C dk f fl d : Forall (has_flags fl) (fst (read_var C dk f fl d)).
+Proof.
+  unfold read_var. destruct (read_fetches d); [|constructor; [reflexivity|constructor]].
+  destruct (realise C dk _) as [[[ty a]|e] t]; [|constructor; [reflexivity|constructor]].
+  destruct (vd_role d); (constructor; [first [reflexivity|exact I]|constructor]).
+Qed.
+
+Lemma read_has_flags C dk f fl ds : Forall (has_flags fl) (fst (read C dk f fl ds)).
+Proof.
+  unfold read.
+  assert (H : Forall (has_flags fl) (fst (read_vars C dk f fl ds))).
+  { induction ds as [|d r IH]; simpl; [constructor|].
+    pose proof (read_var_has_flags C dk f fl d) as Hv.
+    destruct (read_var C dk f fl d) as [c t]. destruct (read_vars C dk f fl r) as [cs ts].
+    cbn [fst] in *. apply Forall_app. split; assumption. }
+  destruct (read_vars C dk f fl ds) as [cs t]. exact H.
+Qed.
+
+(* read with any options, then any history: the flags never change and the
+   results are those of eager access under the options of the read *)
+Theorem read_options_lazy_is_eager C dk f fl ds ops :
+  copy_keeps C -> declares_realised C -> fetch_ok C dk -> Forall (vdesc_ok dk f) ds ->
+  Forall (has_flags fl) (run_heap C dk (fst (read C dk f fl ds)) ops) /\
+  map fst (run C dk (fst (read C dk f fl ds)) ops) = vrun (map (val0 fl dk) (fst (read C dk f fl ds))) ops.
+Proof.
+  intros Hk HC Hf Hds. split.
+  - apply run_keeps_flags; [exact Hk|apply read_has_flags].
+  - apply lazy_is_eager_under_options; auto; [apply read_cells_ok; assumption|apply read_has_flags].
+Qed.
+
+Lemma copy_keeps_nc4 : copy_keeps cfg_nc4. Proof. intros fl. reflexivity. Qed.
+Lemma copy_keeps_h5 : copy_keeps cfg_h5. Proof. intros fl. reflexivity. Qed.
+
+(* the seeded variant (unpack taken from the source's mask) keeps the flags
+   exactly when the two options are equal *)
+Lemma swapped_keeps_iff fl : copy_flags_swapped fl = fl <-> fl_mask fl = fl_unpack fl.
+Proof.
+  destruct fl as [m u]. unfold copy_flags_swapped. simpl. split.
+  - intros H. inversion H. reflexivity.
+  - intros H. subst. reflexivity.
+Qed.
+
+Definition fl_nomask : flags := {| fl_mask := false; fl_unpack := true |}.
+Definition fl_nounpack : flags := {| fl_mask := true; fl_unpack := false |}.
+Definition ds_one : list vdesc := [{| vd_var := 0; vd_shape := [3; 4]; vd_role := RData |}].
+
+(* read with mask=False through h5netcdf, copy, look at the copy: the copy has
+   lost "unpack" and shows the packed int16 values, where the array read (and
+   eager access under the options of the read) shows the unpacked float64 values *)
+Lemma swap_refuted :
+  Forall (vdesc_ok dk_ex 0) ds_one /\ fetch_ok cfg_h5_swap dk_ex /\ declares_realised cfg_h5_swap /\
+  map fst (run cfg_h5_swap dk_ex (fst (read cfg_h5_swap dk_ex 0 fl_nomask ds_one)) [OCopy 0; OSub 1 [IInt 0]; OArr 2; OEq 0 1]) =
+    [ONone; ONone; OArray [1; 4] I2 [Some 0; Some 1; Some 2; Some 3]; OBool false] /\
+  vrun (map (val0 fl_nomask dk_ex) (fst (read cfg_h5_swap dk_ex 0 fl_nomask ds_one))) [OCopy 0; OSub 1 [IInt 0]; OArr 2; OEq 0 1] =
+    [ONone; ONone; OArray [1; 4] F8 [Some 0; Some 2; Some 4; Some 6]; OBool true] /\
+  ~ Forall (has_flags fl_nomask) (run_heap cfg_h5_swap dk_ex (fst (read cfg_h5_swap dk_ex 0 fl_nomask ds_one)) [OCopy 0]).
+Proof.
+  split. { repeat constructor; try lia. eexists; (split; [vm_compute; reflexivity|]); vm_compute;
+           repeat split; repeat constructor. }
+  split; [intros f v a poss _; apply h5_is_nc4|]. split; [intros b fl v p; reflexivity|].
+  split; [vm_compute; reflexivity|]. split; [vm_compute; reflexivity|].
+  vm_compute. intros H. inversion H as [|? ? _ H2]; subst. inversion H2 as [|? ? H3 _]; subst. discriminate H3.
+Qed.
+
+(* the same history under the four option combinations with the real copy *)
+Lemma options_example :
+  map (fun fl => map fst (run cfg_h5 dk_ex (fst (read cfg_h5 dk_ex 0 fl ds_one)) [OCopy 0; OSub 1 [IInt 0]; OArr 2; OEq 0 1]))
+      [flags_default; fl_nomask; fl_nounpack; {| fl_mask := false; fl_unpack := false |}] =
+  [[ONone; ONone; OArray [1; 4] F8 [Some 0; Some 2; Some 4; Some 6]; OBool true];
+   [ONone; ONone; OArray [1; 4] F8 [Some 0; Some 2; Some 4; Some 6]; OBool true];
+   [ONone; ONone; OArray [1; 4] I2 [Some 0; Some 1; Some 2; Some 3]; OBool true];
+   [ONone; ONone; OArray [1; 4] I2 [Some 0; Some 1; Some 2; Some 3]; OBool true]].
+Proof. vm_compute. reflexivity. Qed.
